@@ -42,7 +42,9 @@ TInit == /\ Init
 Erase(m) == IF "atext" \in DOMAIN m THEN
                 (IF "cls" \in DOMAIN m THEN [m EXCEPT !.atext = "*", !.cls = "*"] ELSE [m EXCEPT !.atext = "*"])
             ELSE m
-ErasedOut(o) == [k \in 1..Len(o) |-> Erase(o[k])]
+\* B does not model iauth_class: the class field is erased and the U lines of a trust_username rule are left out
+NoU(o) == SelectSeq(o, LAMBDA m : m.k # "U")
+ErasedOut(o) == LET p == NoU(o) IN [k \in 1..Len(p) |-> Erase(p[k])]
 
 TReset == /\ TraceLog[l].e = "Reset"
           /\ serial' = 0 /\ req' = <<>> /\ slots' = InitSlots /\ ev' = [e |-> "init"] /\ out' = <<>>
